@@ -607,9 +607,16 @@ fn tc_edit(req: &J) -> J {
     let ed = &req["edit"];
     let id = ed["id"].as_u64().unwrap_or(0) as usize;
     let ps: Vec<usize> = ed["parents"].as_array().map(|a| a.iter().filter_map(|x| x.as_u64()).map(|x| x as usize).collect()).unwrap_or_default();
+    // `more`: further entities of the same call (a batch), in order after the first
+    let mut batch = vec![mk(id, ps)];
+    for m in ed["more"].as_array().cloned().unwrap_or_default() {
+        let mid = m["id"].as_u64().unwrap_or(0) as usize;
+        let mps: Vec<usize> = m["parents"].as_array().map(|a| a.iter().filter_map(|x| x.as_u64()).map(|x| x as usize).collect()).unwrap_or_default();
+        batch.push(mk(mid, mps));
+    }
     let r = match ed["op"].as_str().unwrap_or("") {
-        "add" => store.add_entities([mk(id, ps)], None),
-        "upsert" => store.upsert_entities([mk(id, ps)], None),
+        "add" => store.add_entities(batch, None),
+        "upsert" => store.upsert_entities(batch, None),
         "remove" => store.remove_entities([uid(id)]),
         other => return json!({"unknown_edit": other}),
     };
